@@ -30,13 +30,13 @@ MemoKeys == {"uc", "graph", "mols", "uniq", "cif"}
 QueryNames == {"unit_cell_atoms", "slab", "unit_cell_connectivity", "unit_cell_molecules", "symmetry_unique_molecules",
                "atoms_in_radius", "atomic_surroundings", "molecule_environments", "density", "to_cif_string",
                "to_shelx_string", "to_poscar_string", "as_P1", "cartesian_symmetry_operations", "as_P1_supercell",
-               "to_translational_symmetry", "molecular_shell"}
+               "to_translational_symmetry", "molecular_shell", "symmetry_unique_dimers"}
 (* which memos a query reads (and fills when empty) at the pinned commit *)
 Deps(q) ==
   CASE q \in {"unit_cell_atoms", "slab", "atoms_in_radius", "atomic_surroundings", "density", "to_poscar_string"} -> {"uc"}
     [] q = "unit_cell_connectivity" -> {"uc", "graph"}
     [] q \in {"unit_cell_molecules", "as_P1", "as_P1_supercell", "to_translational_symmetry"} -> {"uc", "graph", "mols"}
-    [] q \in {"symmetry_unique_molecules", "molecule_environments", "molecular_shell"} -> {"uc", "graph", "mols", "uniq"}
+    [] q \in {"symmetry_unique_molecules", "molecule_environments", "molecular_shell", "symmetry_unique_dimers"} -> {"uc", "graph", "mols", "uniq"}
     [] q = "to_cif_string" -> {"cif"}
     [] OTHER -> {}
 NoMemo == [k \in MemoKeys |-> <<>>]          \* <<>> = empty, <<state>> = filled while the object was in that state
